@@ -95,6 +95,13 @@ P.update({
           TECH),
 })
 
+P.update({
+  'C14': (True, 'Path.tla',
+          'Path.tla transcribes TaggedSeries.encode/decode, WhisperDatabase._getFilesystemPath (with os.path.join and normpath semantics) and CeresDatabase.encode over a symbol alphabet; TLC enumerates EVERY metric name up to the length bound (one state per name) and proves ConfinedAll, CeresOK and Injective; every such name plus random long / arbitrary-unicode names is passed to the real WhisperDatabase.getFilesystemPath and CeresDatabase.encode (both TAG_HASH_FILENAMES values), a file is created through WhisperDatabase.create in a scratch data directory, and TLC checks per case that the observed path, symbolised by character class, equals the specified one, is confined, and that the created file lies under the data directory.',
+          'whisper / ceres are stubs (not installed): only carbon\'s own path code and plugin glue run; the sha256 prefix is a value oracle; Ceres on-disk layout cannot run',
+          'explicit TLA+ transcription of the path function, exhaustive TLC enumeration of names, oracle evaluation of recorded executions'),
+})
+
 PENDING_REASON = 'check not built yet in this round (planned per DESIGN.md section 5); not claimed until its TLA+ model and conformance harness exist'
 
 
